@@ -347,8 +347,9 @@ def execute_ports(desc):
 def execute_exit_tail(desc):
     """The lock must cover everything the holder does, to the end of its process: a `run` that reuses a
     slot holding a very large earlier run (many thousand directories) is followed, from the moment its
-    last executable has exited until its process is gone, by back-to-back contenders. A contender that
-    completes successfully while the holder's process is still alive was past acquisition together with it."""
+    last executable has exited until its process is gone, by back-to-back contenders. If a contender
+    completes successfully while the holder's process is still alive AND the holder goes on changing
+    <out>/run after that, both were past acquisition at the same time."""
     n_dirs = desc["dirs"]
     s = sc.Scratch("c14t")
     try:
@@ -366,13 +367,26 @@ def execute_exit_tail(desc):
                 raise common.EngineError("holder run did not start its command (exit %s %s)" % (h.code, h.err[:200]))
             for ch in list(c.waiting()):
                 c.release(ch, 0)
+            def run_entries():
+                n = 0
+                for _, ds, fs in os.walk(os.path.join(r.out_dir(), "run")):
+                    n += len(ds) + len(fs)
+                return n
             attempts = 0
             t_end = time.time() + 30
             while h.p.poll() is None and time.time() < t_end:
-                con = r.mr(*APIS[desc["api"]])
+                con = r.mr(*APIS[desc["api"]])   # an API that never touches <out>/run
                 attempts += 1
                 if con.code == 0 and h.p.poll() is None:
-                    viol.append(("two-holders", "%s completed (exit 0) while the run that reuses a slot with %d directories was still alive (attempt %d after its last executable exited)" % (" ".join(APIS[desc["api"]]), n_dirs, attempts)))
+                    # the contender was past acquisition and is done; the holder's process is still there.
+                    # Being alive is not a fault (it may only be printing and exiting) - but if what it
+                    # recorded under <out>/run still changes from here on, it was still at work, i.e.
+                    # past its own acquisition, while the contender was too.
+                    n1 = run_entries()
+                    c.wait(lambda: h.done(), 30)
+                    n2 = run_entries()
+                    if n2 != n1:
+                        viol.append(("two-holders", "%s completed (exit 0) while the run that reuses a slot with %d directories was still alive, and that run went on changing <out>/run afterwards (%d entries, then %d)" % (" ".join(APIS[desc["api"]]), n_dirs, n1, n2)))
                     break
             c.wait(lambda: h.done(), 30)
             return {"evaluations": 1, "nontrivial": 1, "states": [["exit-tail", desc["api"]]], "transitions": attempts,
@@ -465,7 +479,7 @@ def scenarios(tier):
             out.append({"nested": kind, "api": api})
     for api in names:
         out.append({"api": api, "delay_ms": 700, "timeout_ms": 200})
-    for api in (["checkpoint_update", "out_delete"] if tier == "quick" else names):
+    for api in ("checkpoint_update", "checkpoint_delete"):
         out.append({"api": api, "dirs": 20000 if tier == "quick" else 60000})
     out.append({"ports": [65535, 65536, 70000, 131072], "apis": ["checkpoint_update", "out_delete"] if tier == "quick" else names})
     return out
